@@ -192,6 +192,18 @@ def l1(repo: Repo, chk: Check) -> None:
     )
     chk.result(ok_re, "C12.l1", f"{h.key}:reuse", reuse[0].where() if reuse else h.where, "a cast is reused only if it is an L1 memory-space cast among this operand's uses",
                "an existing cast is reused without being an L1 cast of this operand")
+    # visibility: a re-used cast must be available at the op (defined in its block or an enclosing one, in front of it)
+    vis = False
+    for s in reuse:
+        txt = " ".join(s.fact_texts)
+        same_block = bool(has_fact(s, ["$u.operation.parent_block() is $op.parent_block()", "$u.operation.parent_block() == $op.parent_block()", "$u.operation.parent is $op.parent"]))
+        ancestor = "find_ancestor_op_in_block" in txt or "is_ancestor" in txt
+        ordered = "get_operation_index" in txt or "is_before_in_block" in txt or "dominates" in txt
+        vis = vis or ((same_block or ancestor) and (ordered or same_block))
+    chk.result(vis, "C12.l1", f"{h.key}:reuse-visible", reuse[0].where() if reuse else h.where,
+               "a cast is re-used only if it is defined in the op's block or an enclosing one, in front of the op",
+               "a cast found among the operand's uses is re-used wherever it is: when the first user sits in a loop (or branch) body the cast is created there, and an op "
+               "outside re-uses a value that is not available at that point")
 
 
 def boundary(repo: Repo, chk: Check) -> None:
